@@ -12,14 +12,14 @@ use std::collections::BTreeMap;
 use std::time::Duration;
 
 pub fn meta(m: &mut PropMeta) {
-    m.rule = "a pool of 29 file texts spread over nested and sibling modules (cross-file type references, alias chains, inheritance, deprecated uses, doc links that resolve only when another file is present, a redefinition across files, a containment cycle across files, a dictionary key struct, and a definition named like a nested module of another file); EVERY subset of 2..4 files (quick) / 2..5 files (thorough) x ALL permutations of the subset, compiled in-process; every compilation is executed twice (fresh hash seeds) and must give identical diagnostics and ASTs; across the permutations of one subset: accepted-or-rejected is constant and, when accepted, every file's observed AST and the multiset of warnings (code, message, file, span) are constant. Process level: 3-file programs x every source/reference assignment x all 6 orders through the real binary with a capturing generator: exit status constant, warning multiset constant, and the decoded request content of every file constant (only the split and order change); every scenario repeated under hash seeds VERIF_HASH_SEED = 0..3 (quick) / 0..31 (thorough) via an LD_PRELOAD getrandom shim: stderr, stdout and the captured request must be byte-identical. non-trivial = the subset's files refer to each other; distinct = distinct (subset, order).";
+    m.rule = "a pool of 31 file texts spread over nested and sibling modules (cross-file type references, alias chains, inheritance, deprecated uses, doc links that resolve only when another file is present, a redefinition across files, a containment cycle across files and two types outside it that lead into it, a dictionary key struct, and a definition named like a nested module of another file); EVERY subset of 2..4 files (quick) / 2..5 files (thorough) x ALL permutations of the subset, compiled in-process; every compilation is executed twice (fresh hash seeds) and must give identical diagnostics and ASTs; across the permutations of one subset: accepted-or-rejected is constant and, when accepted, every file's observed AST and the multiset of warnings (code, message, file, span) are constant. Process level: 3-file programs x every source/reference assignment x all 6 orders through the real binary with a capturing generator: exit status constant, warning multiset constant, and the decoded request content of every file constant (only the split and order change); every scenario repeated under hash seeds VERIF_HASH_SEED = 0..3 (quick) / 0..31 (thorough) via an LD_PRELOAD getrandom shim: stderr, stdout and the captured request must be byte-identical. non-trivial = the subset's files refer to each other; distinct = distinct (subset, order).";
     m.explanation = "exhaustive subsets x permutations x source/reference assignments; differential oracle (no expected value needed); controlled hash seeds";
-    m.quick_bound = "all subsets of 2..4 of 29 files x all permutations; 4 hash seeds";
-    m.thorough_bound = "all subsets of 2..5 of 29 files x all permutations; 32 hash seeds";
+    m.quick_bound = "all subsets of 2..4 of 31 files x all permutations; 4 hash seeds";
+    m.thorough_bound = "all subsets of 2..5 of 31 files x all permutations; 32 hash seeds";
     m.assumptions.push("the hash-seed space cannot be enumerated: seeds are a controlled, replayable sample; the permutation / assignment part is exhaustive");
 }
 
-const POOL: [&str; 29] = [
+const POOL: [&str; 31] = [
     "module A\nstruct S0 { x: int32 }\nenum E0 : uint8 { X }\n",
     "module A\nstruct S1 { s: S0, e: E0? }\n",
     "module A::B\nstruct T { s: S0, u: A::S1 }\n",
@@ -55,6 +55,9 @@ const POOL: [&str; 29] = [
     // every compilation of this family is given -D GIVEN: a file that undefines it, and a file that tests it
     "#undef GIVEN\n#define OTHER\nmodule P2\nstruct PE {}\n",
     "module P2\n#if GIVEN\nstruct PF { x: int32 }\n#endif\n#if OTHER\nstruct PH {}\n#endif\nstruct PG { f: PF }\n",
+    // types OUTSIDE the containment cycle R1 <-> R2 (#11, #12) that lead into it: a struct and an enum
+    "module A\nstruct RU { u: R1, v: Sequence<R2?> }\n",
+    "module A\nenum RE { V(x: R2), W }\n",
 ];
 
 /// files whose presence together makes a definition collide with a nested module of another file
@@ -145,7 +148,7 @@ impl Permutations {
 }
 impl Family for Permutations {
     fn name(&self) -> String {
-        format!("permutations/{} subsets of the 29-file pool x all permutations, each compiled twice", self.subsets.len())
+        format!("permutations/{} subsets of the 31-file pool x all permutations, each compiled twice", self.subsets.len())
     }
     fn len(&self) -> u64 {
         self.subsets.len() as u64
@@ -225,10 +228,10 @@ fn shim_path() -> String {
 }
 
 /// Programs of the process-level family: clean, warnings (deprecated uses, broken links), and rejected ones (a
-/// redefinition across files, a containment cycle across files, an unresolved reference), so that "accepted or
+/// redefinition across files, a containment cycle across files and two types outside it that lead into it, an unresolved reference), so that "accepted or
 /// rejected" has both answers; two four-file programs.
 fn programs(tier: &str) -> Vec<Vec<usize>> {
-    let mut v: Vec<Vec<usize>> = vec![vec![0, 1, 2], vec![5, 6, 4], vec![0, 2, 8], vec![0, 13, 1], vec![0, 7, 1], vec![11, 12, 0], vec![9, 2, 10], vec![1, 2, 3], vec![0, 1, 2, 15], vec![4, 5, 6, 0]];
+    let mut v: Vec<Vec<usize>> = vec![vec![0, 1, 2], vec![5, 6, 4], vec![0, 2, 8], vec![0, 13, 1], vec![0, 7, 1], vec![11, 12, 0], vec![29, 11, 12], vec![9, 2, 10], vec![1, 2, 3], vec![0, 1, 2, 15], vec![4, 5, 6, 0]];
     if tier != "quick" {
         for s in subsets(POOL.len(), 3) {
             if !v.contains(&s) {
@@ -275,7 +278,7 @@ fn run_binary(files: &[(usize, bool)], seed: Option<u32>) -> BinObs {
 
 pub struct Assignments {
     pub seeds: u32,
-    /// seeds used for the programs beyond the first ten (thorough tier: every 3-subset of the pool)
+    /// seeds used for the programs beyond the first eleven (thorough tier: every 3-subset of the pool)
     pub seeds_rest: u32,
     progs: Vec<Vec<usize>>,
     /// (program, order, source mask) for every case
@@ -299,7 +302,7 @@ impl Assignments {
 }
 impl Family for Assignments {
     fn name(&self) -> String {
-        format!("binary-assignments-and-seeds/{} programs of 3-4 files (clean, warnings, rejected) x every source/reference assignment with >= 1 source x all orders through the real binary, each under {} hash seeds (first ten programs; {} for the rest)", self.progs.len(), self.seeds, self.seeds_rest)
+        format!("binary-assignments-and-seeds/{} programs of 3-4 files (clean, warnings, rejected) x every source/reference assignment with >= 1 source x all orders through the real binary, each under {} hash seeds (first eleven programs; {} for the rest)", self.progs.len(), self.seeds, self.seeds_rest)
     }
     fn len(&self) -> u64 {
         self.cases.len() as u64
@@ -309,12 +312,12 @@ impl Family for Assignments {
     }
     fn describe(&self, idx: u64) -> Value {
         let (p, o, a) = &self.cases[idx as usize];
-        json!({"pool_files": self.progs[*p], "sources_mask": format!("{a:#b}"), "order": o, "seeds": if *p < 10 { self.seeds } else { self.seeds_rest }})
+        json!({"pool_files": self.progs[*p], "sources_mask": format!("{a:#b}"), "order": o, "seeds": if *p < 11 { self.seeds } else { self.seeds_rest }})
     }
     fn run(&self, idx: u64) -> CaseOut {
         let (p, order, assign) = self.cases[idx as usize].clone();
         let prog = &self.progs[p];
-        let seeds = if p < 10 { self.seeds } else { self.seeds_rest };
+        let seeds = if p < 11 { self.seeds } else { self.seeds_rest };
         let files: Vec<(usize, bool)> = order.iter().map(|k| (prog[*k], (assign >> k) & 1 == 1)).collect();
         let mut out = CaseOut::new(hash_str(&format!("c15bin{idx}")));
         out.steps = 0;
